@@ -2,6 +2,7 @@
 Terms are built ~100x faster than through the z3 Python API, folded/simplified at construction,
 serialised to SMT-LIB2 (QF_BV) for z3 / cvc5, and can be evaluated concretely under a model
 (used for model extraction and for the encoder self-check)."""
+import os
 import itertools
 import subprocess
 import time
@@ -230,7 +231,12 @@ def _srem(a, b, n):
 
 _CT = {}
 CT_MAX = 64     # largest leaf product that is lifted through two constant trees
-CT_BIG = 200    # largest constant tree that is still recognised as one (value sets, compaction)
+CT_BIG = 200 if os.environ.get('VERIF_COMPACT') else 64    # largest constant tree that is still recognised as one (value sets, compaction)
+# Compaction of constant trees by distinct value (round 2) is OFF by default: it rescued an encoding with position
+# arithmetic (`s[searchStart:]`, `searchStart + loc[0]`) that no longer exists in /repo, and it slows down the whole-file
+# jobs of C09 (>900 s instead of 50 s) and the C02 flag-group lemma (113 s instead of 35 s). VERIF_COMPACT=1 turns it on.
+COMPACT = bool(os.environ.get('VERIF_COMPACT'))
+COMPACT_ITE = COMPACT
 CT_VALS = 40    # compaction / value-wise arithmetic only for terms with at most this many distinct values (positions, not bytes)
 
 
@@ -328,6 +334,8 @@ def _liftable(ca, cb):
 
 def _compact2(a, b):
     """both operands compacted when their leaf product is too large; returns operands (possibly unchanged)"""
+    if not COMPACT:
+        return a, b
     ca, cb = _ctree(a), _ctree(b)
     if ca and cb and not _liftable(ca, cb):
         a2, b2 = compact(a), compact(b)
@@ -391,7 +399,7 @@ def _bin(op, a, b):
     if (a.op == 'ite' or b.op == 'ite') and op in ('bvadd', 'bvsub', 'bvmul', 'bvand', 'bvor'):
         a, b = _compact2(a, b)
         ca, cb = _ctree(a), _ctree(b)
-        if ca and cb and not _liftable(ca, cb):
+        if COMPACT and ca and cb and not _liftable(ca, cb):
             r = _bin_by_values(op, a, b)
             if r is not None:
                 return r
@@ -606,7 +614,7 @@ def If(c, a, b):
         return a
     if a.srt != 0:
         ca, cb = _ctree(a), _ctree(b)
-        if ca and cb and ca + cb > CT_BIG:
+        if COMPACT_ITE and ca and cb and ca + cb > CT_BIG:
             # one leaf per distinct value keeps the merged term a constant tree
             vs = sorted(leaves(a) | leaves(b))
             if len(vs) <= 2 * CT_VALS:
